@@ -25,7 +25,7 @@ def build(case, seed=0):
     tag = rnd.randint(100, 999)
     vals = {
         # (settings cells are not whitespace-cleaned: runs of blanks inside a value are part of it)
-        "title": f"Title  atom   {tag}", "id": f"id_atom_{tag}", "version": f"ver  {tag}", "name": f"rootnm{tag}",
+        "title": f"Title  atom & <x> {tag}", "id": f"id_atom_{tag}", "version": f"ver  {tag}", "name": f"rootnm{tag}",
         "instance_name": f"concat('in  x', '{tag}')", "submission_url": f"http://sub.example/{tag}", "public_key": f"PUBKEY{tag}",
         "auto_send": rnd.choice(["yes", "true"]), "auto_delete": rnd.choice(["no", "false"]), "style": rnd.choice(["pages", "theme-grid", f"pages cls{tag}"]),
         "namespaces": f'exns="{NS_URI}"', "attr_plain": f"plain  val{tag}", "attr_ns": f"nsval{tag}", "omit_id": rnd.choice(["yes", "true", "Yes"]),
@@ -35,9 +35,17 @@ def build(case, seed=0):
     present = sorted(case["present"])
     rnd.shuffle(present)
     hdr = [rnd.choice(SPELL[k]) for k in present]
+    row = [vals[k] for k in present]
+    if "id" in present and rnd.random() < 0.3:
+        # the legacy id_string column beside form_id (either column order): form_id is the form id
+        i = present.index("id")
+        hdr[i] = "form_id"
+        j = rnd.randint(0, len(hdr))
+        hdr.insert(j, "id_string")
+        row.insert(j, f"legacy_id_{tag}")
     sheets = [{"name": "survey", "header": ["type", "name", "label"], "rows": [["text", "q1", "Q1"], ["integer", "q2", "Q2"]]}]
     if present:
-        sheets.append({"name": "settings", "header": hdr, "rows": [[vals[k] for k in present]]})
+        sheets.append({"name": "settings", "header": hdr, "rows": [row]})
     if case.get("ent"):
         sheets.append({"name": "entities", "header": ["dataset", "label"], "rows": [["people", "${q1}"]]})
     stem = f"stem{tag}"
